@@ -280,3 +280,66 @@ pub fn check_c03<T: Sc>(spec: &ModelSpec, alpha: &[T], r: &Reference, obs: &Obs<
         }
     }
 }
+
+#[cfg(test)]
+mod t {
+    use super::*;
+    use crate::gen::*;
+    use crate::prob::{self, observe, Api};
+    use crate::zoo::*;
+    use nalgebra::DMatrix;
+
+    fn setup() -> (ModelSpec, Vec<f64>, DMatrix<f64>) {
+        let fam = Family::Exp2Off;
+        let spec = spec_for(&fam, 9);
+        let a = vec![0.75, 3.0];
+        let y = crate::gen::col(&data(&spec, 1.0, 2e-2, 1, 3));
+        (spec, a, y)
+    }
+    #[test]
+    fn oracles_accept_the_real_problem_and_reject_tampered_values() {
+        let (spec, a, y) = setup();
+        let p = prob::build(make::<f64>(&spec, Prov::Hand, &a), &y, None, None, Api::Single, false).unwrap();
+        let obs = observe(p.as_ref());
+        let r = reference::<f64>(&spec, &a, &y, None, f64::EPSILON, false);
+        assert_eq!(r.class, RankClass::Full);
+        let (mut f, mut g) = (vec![], vec![]);
+        check_c01::<f64>(&r, &obs, &mut f, &mut g);
+        check_c02_residuals::<f64>(&r, &obs, &mut f, &mut g);
+        check_c03::<f64>(&spec, &a, &r, &obs, &mut f, &mut g);
+        assert!(f.is_empty(), "{}", f.iter().map(|x| x.detail.clone()).collect::<Vec<_>>().join("; "));
+        // tamper: scale one coefficient by (1 + 1e-6)
+        let mut bad = obs.clone();
+        if let Some((_, _, d)) = bad.coef.as_mut() {
+            d[0] = (f64::from_bits(d[0]) * (1.0 + 1e-6)).to_bits();
+        }
+        let mut f2 = vec![];
+        check_c01::<f64>(&r, &bad, &mut f2, &mut g);
+        assert!(!f2.is_empty(), "a relative error of 1e-6 in a coefficient must be flagged");
+        // tamper: flip the sign of one Jacobian entry
+        let mut bad = obs.clone();
+        if let Some((_, _, d)) = bad.jac.as_mut() {
+            d[3] = (-f64::from_bits(d[3])).to_bits();
+        }
+        let mut f3 = vec![];
+        check_c03::<f64>(&spec, &a, &r, &bad, &mut f3, &mut g);
+        assert!(!f3.is_empty());
+        // tamper: one residual entry
+        let mut bad = obs.clone();
+        if let Some(d) = bad.res.as_mut() {
+            d[2] = (f64::from_bits(d[2]) + 1e-9).to_bits();
+        }
+        let mut f4 = vec![];
+        check_c02_residuals::<f64>(&r, &bad, &mut f4, &mut g);
+        assert!(!f4.is_empty());
+    }
+    #[test]
+    fn duplicate_columns_are_classified_by_the_threshold() {
+        let fam = Family::Exp2Off;
+        let spec = spec_for(&fam, 9);
+        let y = crate::gen::col(&data(&spec, 1.0, 2e-2, 1, 3));
+        let a = vec![2.0, 2.0];
+        assert_eq!(reference::<f64>(&spec, &a, &y, None, 1e-8, false).class, RankClass::Truncated);
+        assert_eq!(reference::<f64>(&spec, &a, &y, None, f64::EPSILON, false).class, RankClass::Ambiguous);
+    }
+}
